@@ -14,7 +14,9 @@ Matches(p, path) ==
     [] p = "any"   -> TRUE
     [] p = "proj"  -> path = "proj_alpha.zo"
     [] OTHER -> FALSE
-\* renderings: the template's text with the variables captured from the path (date-like captures printed as dates)
+\* renderings: the template's text with the variables captured from the path (date-like captures printed as dates).
+\* Whenever the caller passes `extra` the binding also passes name=scratch and y=1999: a caller's variable never replaces a
+\* captured one, so the renderings below do not mention them.
 RenderWith(extra) == [p \in Pats \cup {"explicit"} |->
   [path \in Paths |->
      CASE p = "daily" -> "# Day 2024-03-05 year=2024 extra=" \o extra \o "\n#\n# ^ = [[2024/20240304]]\n\n- first " \o extra \o "\n"
